@@ -6,7 +6,7 @@ from lib import symx
 LEVEL = 'model_checking'
 MANIFEST = {'category': 'model_checking', 'engine': 'symx+z3',
  'technique': 'symbolic execution of the real lookup functions (through Arg.*.resolve) over a symbolic index and a symbolic 33-bit value (z3 bit-vectors), compared with an independent ElementTree reading of the XML',
- 'text': 'Exhaustive over all loaded interfaces x messages x argument positions (index symbolic, incl. beyond the last argument) and, for each of the enum-typed arguments, over ALL values in [0,2^33): the label list equals the specification formula (equality / bit intersection, declaration order, sentinels). Version precedence with symbolic versions for k <= 4 descriptions.',
+ 'text': 'Exhaustive over all loaded interfaces x messages x argument positions (index symbolic, incl. beyond the last argument) and, for each of the enum-typed arguments, over ALL values in [0,2^33): the label list equals the specification formula (equality / bit intersection, declaration order, sentinels). Version precedence with symbolic versions for k <= 4 descriptions. Sessions of <= 3 (4) real log lines (nil in different slots, enum and plain integers) through parse.message and Message.resolve in any order: every label depends on the line alone.',
  'note': 'Trusted: z3, lib/symx.py, xml.etree (C), spec/protocol_ref.py (independent reader, hand-tag table copied from the documentation comment). Negative argument values are outside.'}
 EXPLANATION = ('The real lookup functions (through Arg.*.resolve) are executed on a symbolic argument index (small domain, concretised by forking) and on a '
                'symbolic 33-bit argument value (z3 bit-vectors) for every enum-typed argument of every loaded interface; results are compared with an independent '
